@@ -10,6 +10,106 @@ From Verif Require Import Str Crc32 Crc32Thm OptGuard Gen_OptGuard OptGuardThm.
 From Coq Require Import ZArith.
 Open Scope N_scope.
 
+(* (0) MAIN.  A support header generated under option set o_s and type headers generated under o_t, compiled
+   in one translation unit: every type header yields a list ds of guard diagnostics (key-set assertion, then one
+   per option); EITHER the build is rejected (ds <> [], each element a failing "different language options"
+   assertion or an undeclared guard symbol) OR o_s ~ o_t on every layout / ABI / wire / support-API / source
+   relevant option, where  o_s ~ o_t  :=  forall k, relevant k = true -> lookup_key k o_s = lookup_key k o_t
+   (same value, or absent on both sides); and ds = [] holds exactly for the same option set.  No assumption relates
+   the two key lists.  Quantification: all option sets over the documented values (`*_domain`, regenerated) whose
+   key sets are documented key sets (`*_keysets`: the options of properties.yaml plus any subset of the optional
+   ones), duplicate-free keys.  The verdicts are verdicts of the compiler MODEL of Gen/OptGuard.v (a symbol is
+   (name expression, key), `==` on integers; C++ uint32_t narrowing and <assert.h> are outside), tied to gcc/g++
+   by the compile runs of the check.  The facts about the templates the proof uses -- the fingerprint exists on
+   both sides (c_keyset_guarded), the statements are live C (side_live), both loops cover every option, the
+   messages are literal-safe -- are computed from the regenerated `*_side` records, so the theorem stops
+   compiling when a template loses one of them. *)
+Theorem C17_main_c :
+  forall o_s o_t : opts,
+    in_domainb c_domain o_s = true -> in_domainb c_domain o_t = true ->
+    keys_documentedb c_keysets o_s = true -> keys_documentedb c_keysets o_t = true ->
+    nodupb (map fst o_s) = true -> nodupb (map fst o_t) = true ->
+    exists ds, compile_full sav c_support_side c_type_side o_s o_t = Some ds /\
+               (ds <> [] \/ opt_equiv o_s o_t) /\
+               (ds = [] <-> (forall kv, In kv o_s <-> In kv o_t)).
+Proof.
+  intros o_s o_t Hs Ht Ds Dt Ns Nt.
+  destruct (main_general sav c_domain c_support_side c_type_side c_domain_ok c_sides_agree c_keysets o_s o_t
+              c_keyset_guarded c_keysets_ok Hs Ht Ds Dt Ns Nt) as (ds & E & Hiff).
+  exists ds. split; [exact E|]. split; [|exact Hiff].
+  destruct ds as [|d ds]; [right; apply same_set_opt_equiv; [assumption | assumption | apply Hiff; reflexivity] | left; discriminate].
+Qed.
+Print Assumptions C17_main_c.
+
+Theorem C17_main_cpp :
+  forall o_s o_t : opts,
+    in_domainb cpp_domain o_s = true -> in_domainb cpp_domain o_t = true ->
+    keys_documentedb cpp_keysets o_s = true -> keys_documentedb cpp_keysets o_t = true ->
+    nodupb (map fst o_s) = true -> nodupb (map fst o_t) = true ->
+    exists ds, compile_full sav cpp_support_side cpp_type_side o_s o_t = Some ds /\
+               (ds <> [] \/ opt_equiv o_s o_t) /\
+               (ds = [] <-> (forall kv, In kv o_s <-> In kv o_t)).
+Proof.
+  intros o_s o_t Hs Ht Ds Dt Ns Nt.
+  destruct (main_general sav cpp_domain cpp_support_side cpp_type_side cpp_domain_ok cpp_sides_agree cpp_keysets o_s o_t
+              cpp_keyset_guarded cpp_keysets_ok Hs Ht Ds Dt Ns Nt) as (ds & E & Hiff).
+  exists ds. split; [exact E|]. split; [|exact Hiff].
+  destruct ds as [|d ds]; [right; apply same_set_opt_equiv; [assumption | assumption | apply Hiff; reflexivity] | left; discriminate].
+Qed.
+Print Assumptions C17_main_cpp.
+
+(* on option sets made of relevant options only (all documented ones are), ~ is equality of the option sets *)
+Theorem C17_equiv_is_same_set :
+  forallb (fun kc => relevant (fst kc)) option_classes = true /\
+  (forall o1 o2 : opts,
+     nodupb (map fst o1) = true -> nodupb (map fst o2) = true ->
+     forallb (fun kv => relevant (fst kv)) o1 = true -> forallb (fun kv => relevant (fst kv)) o2 = true ->
+     (opt_equiv o1 o2 <-> (forall kv, In kv o1 <-> In kv o2))).
+Proof.
+  split; [exact all_classified_relevant|]. intros o1 o2 N1 N2 R1 R2. split.
+  - exact (opt_equiv_same_set o1 o2 N1 N2 R1 R2).
+  - exact (same_set_opt_equiv o1 o2 N1 N2).
+Qed.
+Print Assumptions C17_equiv_is_same_set.
+
+(* (0') Every option that properties.yaml defines for c / cpp (and the optional `std` of C) is classified in
+   Gen/OptGuard.v option_classes -- a newly added option breaks this until someone classifies it -- and is
+   rendered by both loops (a #define / constexpr and an assertion exist for it). *)
+Theorem C17_options_classified_and_fingerprinted :
+  (classifiedb (map fst c_domain) = true /\ classifiedb (map fst cpp_domain) = true /\
+   classifiedb (map fst c_defaults) = true /\ classifiedb (map fst cpp_defaults) = true) /\
+  (rendered_keys c_support_side c_defaults = Some (map fst c_defaults) /\
+   rendered_keys c_type_side c_defaults = Some (map fst c_defaults) /\
+   rendered_keys cpp_support_side cpp_defaults = Some (map fst cpp_defaults) /\
+   rendered_keys cpp_type_side cpp_defaults = Some (map fst cpp_defaults)).
+Proof. exact (conj options_classified every_option_fingerprinted). Qed.
+Print Assumptions C17_options_classified_and_fingerprinted.
+
+(* (0'') The guard statements are live C / C++ on both sides of both languages: not inside a comment, not under
+   a preprocessor conditional other than the include guard, and (type side) after the #include loop that brings
+   in the support header; and every concrete pydsdl composite class (struct, union, delimited, service) is
+   rendered by a template that reaches the guard of base.j2 (extends chain / unconditional top-level include;
+   the guard itself is outside every overridable block, otherwise the scanner fails closed). *)
+Theorem C17_guard_live_in_every_type_header :
+  forallb side_live [c_support_side; c_type_side; cpp_support_side; cpp_type_side] = true /\
+  composite_classes <> [] /\
+  forallb (class_reaches c_entry_templates) composite_classes = true /\
+  forallb (class_reaches cpp_entry_templates) composite_classes = true.
+Proof. exact (conj all_sides_live every_class_reaches_guard). Qed.
+Print Assumptions C17_guard_live_in_every_type_header.
+
+(* the fingerprint is on both sides of both languages under the same symbol; it is defined and injective on the
+   documented key sets; its reserved symbol is not the symbol of a documented option *)
+Theorem C17_keyset_facts :
+  (keyset_guarded c_support_side c_type_side = true /\ keyset_guarded cpp_support_side cpp_type_side = true) /\
+  (keysets_ok sav c_keysets = true /\ keysets_ok sav cpp_keysets = true) /\
+  (keyset_symbol_free c_support_side c_symbols = true /\ keyset_symbol_free c_type_side c_symbols = true /\
+   keyset_symbol_free cpp_support_side cpp_symbols = true /\ keyset_symbol_free cpp_type_side cpp_symbols = true).
+Proof.
+  exact (conj (conj c_keyset_guarded cpp_keyset_guarded) (conj (conj c_keysets_ok cpp_keysets_ok) keyset_symbols_free)).
+Qed.
+Print Assumptions C17_keyset_facts.
+
 (* (1) The guard accepts exactly the identical option sets: for all option sets over the documented
    values with the same (duplicate-free) key list -- C. *)
 Theorem C17_guard_rejects_iff_differ_c :
@@ -81,7 +181,7 @@ Theorem C17_symbols_distinct :
 Proof. exact (conj c_names_nodup cpp_names_nodup). Qed.
 Print Assumptions C17_symbols_distinct.
 
-(* (5) Without the assumption on the key lists only one inclusion holds: whatever is accepted, every
+(* (5) The per-option assertions alone (without the key-set assertion) give one inclusion: whatever they accept, every
    option of the type headers has the same value on the support side ... *)
 Theorem C17_accept_implies_subset_partial :
   forall o_s o_t : opts,
@@ -95,72 +195,6 @@ Proof.
     |exact (accept_implies_subset_general sav cpp_domain cpp_support_side cpp_type_side cpp_domain_ok cpp_sides_agree o_s o_t)].
 Qed.
 Print Assumptions C17_accept_implies_subset_partial.
-
-(* ... and in a tree whose templates do not carry the key-set fingerprint the full statement (any two
-   documented option sets) is false of the faithful model: a support header generated with
-   `--language-standard c11` (which adds the option `std`) is accepted by C type headers generated
-   without it.  Known finding F-OPTGUARD-KEYSET. *)
-Theorem C17_guard_full_refuted :
-  sd_keyset c_type_side = None ->
-  exists o_s o_t : opts,
-    in_domainb c_domain o_s = true /\ in_domainb c_domain o_t = true /\
-    keys_documentedb c_keysets o_s = true /\ keys_documentedb c_keysets o_t = true /\
-    compiles_together_full sav c_support_side c_type_side o_s o_t = true /\ ~ (forall kv, In kv o_s <-> In kv o_t).
-Proof. exact full_refuted_without_keyset. Qed.
-Print Assumptions C17_guard_full_refuted.
-
-(* (5') With the key-set fingerprint (support header defines, every type header asserts the CRC of the
-   sorted, comma-joined key list under a reserved symbol) the FULL statement holds: for all option sets
-   over the documented values and documented key sets, no assumption relating the two key lists:
-   everything a type header checks passes <-> the two option sets are the same set.  Live when the
-   scanner finds the fingerprint on both sides (keyset_guarded = true), vacuous otherwise. *)
-Theorem C17_guard_rejects_iff_differ_full_c :
-  keyset_guarded c_support_side c_type_side = true ->
-  forall o_s o_t : opts,
-    in_domainb c_domain o_s = true -> in_domainb c_domain o_t = true ->
-    keys_documentedb c_keysets o_s = true -> keys_documentedb c_keysets o_t = true ->
-    nodupb (map fst o_s) = true -> nodupb (map fst o_t) = true ->
-    (compiles_together_full sav c_support_side c_type_side o_s o_t = true <-> (forall kv, In kv o_s <-> In kv o_t)).
-Proof.
-  intros G o_s o_t.
-  exact (guard_full_general sav c_domain c_support_side c_type_side c_domain_ok c_sides_agree c_keysets o_s o_t G c_keysets_ok).
-Qed.
-Print Assumptions C17_guard_rejects_iff_differ_full_c.
-
-Theorem C17_guard_rejects_iff_differ_full_cpp :
-  keyset_guarded cpp_support_side cpp_type_side = true ->
-  forall o_s o_t : opts,
-    in_domainb cpp_domain o_s = true -> in_domainb cpp_domain o_t = true ->
-    keys_documentedb cpp_keysets o_s = true -> keys_documentedb cpp_keysets o_t = true ->
-    nodupb (map fst o_s) = true -> nodupb (map fst o_t) = true ->
-    (compiles_together_full sav cpp_support_side cpp_type_side o_s o_t = true <-> (forall kv, In kv o_s <-> In kv o_t)).
-Proof.
-  intros G o_s o_t.
-  exact (guard_full_general sav cpp_domain cpp_support_side cpp_type_side cpp_domain_ok cpp_sides_agree cpp_keysets o_s o_t G cpp_keysets_ok).
-Qed.
-Print Assumptions C17_guard_rejects_iff_differ_full_cpp.
-
-(* the fingerprint is either on both sides of a language or on neither; it is defined and injective on
-   the documented key sets; its reserved symbol is not the symbol of a documented option; without it
-   the complete diagnostics are the per-option ones of (1), (2) *)
-Theorem C17_keyset_facts :
-  ((keyset_guarded c_support_side c_type_side || keyset_absent c_support_side c_type_side = true) /\
-   (keyset_guarded cpp_support_side cpp_type_side || keyset_absent cpp_support_side cpp_type_side = true)) /\
-  (keysets_ok sav c_keysets = true /\ keysets_ok sav cpp_keysets = true) /\
-  (keyset_symbol_free c_support_side c_symbols = true /\ keyset_symbol_free c_type_side c_symbols = true /\
-   keyset_symbol_free cpp_support_side cpp_symbols = true /\ keyset_symbol_free cpp_type_side cpp_symbols = true) /\
-  (forall sup typ o_s o_t, sd_keyset typ = None -> compile_full sav sup typ o_s o_t = compile sav sup typ o_s o_t).
-Proof.
-  exact (conj keyset_consistent (conj (conj c_keysets_ok cpp_keysets_ok) (conj keyset_symbols_free (compile_full_without_keyset sav)))).
-Qed.
-Print Assumptions C17_keyset_facts.
-
-(* the opposite order: the per-option assertions hit an undeclared symbol instead of failing (with the
-   fingerprint the key-set assertion fails first, see compile_full) *)
-Theorem C17_extra_type_key_undeclared :
-  compile sav c_support_side c_type_side c_defaults (set_key k_std v_c11 c_defaults) = Some [Undeclared k_std].
-Proof. exact extra_type_key_undeclared. Qed.
-Print Assumptions C17_extra_type_key_undeclared.
 
 (* (6) The restriction to documented values is necessary: on free-form strings the filter is CRC-32
    and not injective, and values of different types collide ("" and false). *)
@@ -244,3 +278,17 @@ Example C17_reject_example :
   compile sav c_support_side c_type_side c_defaults o_t = Some [Mismatch k] /\
   compile sav c_support_side c_type_side c_defaults c_defaults = Some [].
 Proof. vm_compute. repeat split; reflexivity. Qed.
+
+(* both branches of (0) occur: defaults vs defaults is accepted and equivalent; a value difference and a key-set
+   difference (support generated with --language-standard c11) are rejected, the latter by the key-set assertion *)
+Example C17_main_branches :
+  compile_full sav c_support_side c_type_side c_defaults c_defaults = Some [] /\
+  (let k := [116; 97; 114; 103; 101; 116; 95; 101; 110; 100; 105; 97; 110; 110; 101; 115; 115] in
+   compile_full sav c_support_side c_type_side c_defaults
+     ((k, VStr [108; 105; 116; 116; 108; 101]) :: tl c_defaults) = Some [Mismatch k]) /\
+  compile_full sav c_support_side c_type_side (set_key k_std v_c11 c_defaults) c_defaults = Some [KeySetMismatch] /\
+  compile_full sav c_support_side c_type_side c_defaults (set_key k_std v_c11 c_defaults) = Some [KeySetMismatch; Undeclared k_std] /\
+  compile_full sav cpp_support_side cpp_type_side cpp_defaults cpp_defaults = Some [].
+Proof.
+  vm_compute. repeat split; reflexivity.
+Qed.
